@@ -420,7 +420,8 @@ def coq_route_expr(c, out, i):
     al = vlist("(%s, (%s, %s))" % (zlit(v), zlit(a), zlit(b)) for v, (a, b) in c["allocs"])
     sinks = vlist(zlit(v) for v in net["sinks"])
     dests = vlist(chipl(d) for d in e["dests"])
-    stream = vlist(zlit(k) for k in c["stream"][e["pos"]:])
+    # only the draws this net consumed (a net that raised inside ner_net has no end position: the whole rest)
+    stream = vlist(zlit(k) for k in c["stream"][e["pos"]:e.get("pos_end")])
     order = "None" if e["broken"] is None else "(Some %s)" % vlist(
         "(%s, %s)" % (chipl(p), chipl(ch)) for p, ch in e["broken"])
     src = dict((v, xy) for v, xy in c["placements"])[net["source"]]
@@ -438,7 +439,8 @@ def coq_route_expr(c, out, i):
 def coq_ner_expr(c, out):
     return "ner_same (ner_net %s %s %s %s %s %s %s) (Some (%s)) %s" % (
         chipl(c["source"]), vlist(chipl(d) for d in c["dests"]), zlit(c["w"]), zlit(c["h"]),
-        "true" if c["wrap"] else "false", zlit(c["radius"]), vlist(zlit(k) for k in c["stream"]),
+        "true" if c["wrap"] else "false", zlit(c["radius"]),
+        vlist(zlit(k) for k in c["stream"][:out.get("pos_end")]),
         treel(out["ner"]), vlist(chipl(k) for k in out["keys"]))
 
 
@@ -585,8 +587,8 @@ def run(chk, args):
         cases = [f["replay"]["case"] for f in rp.get("failures", []) if "case" in f.get("replay", {})]
         cases += [b["replay"]["case"] for b in rp.get("no_longer_checks", []) if "case" in b.get("replay", {})]
     else:
-        n_route = 1500 if quick else 10000
-        n_ner = 500 if quick else 3000
+        n_route = 2500 if quick else 30000
+        n_ner = 800 if quick else 8000
         cases = [gen_case(rng, malformed=(i % 25 == 24), dense=(i % 3 == 0)) for i in range(n_route)]
         # the hexagon-scan branch needs more than 3 * (1 + 3r(r+1)) route nodes: large fan-out
         for i in range(20 if quick else 300):
@@ -604,7 +606,7 @@ def run(chk, args):
     # a larger dense-fault stream judged by the independent oracle only (the repair step is where trees go wrong;
     # about one dense case in a thousand made the code as found attach a chip twice)
     if not args.replay:
-        n_dense = 8000 if quick else 150000
+        n_dense = 15000 if quick else 150000
         dense = [gen_case(rng, dense=True) for _ in range(n_dense)]
         dchunks = [dense[i:i + 700] for i in range(0, len(dense), 700)]
         for part, outp in zip(dchunks, chk.impl_parallel("impl_c03.py", dchunks, timeout=3000)):
@@ -707,7 +709,7 @@ def run(chk, args):
         "route(): random machines up to 7x7 (plus 8x8..10x10 for the hexagon-scan branch, up to 8x12 in the dense-fault "
         "stream) incl. 1xN and 2xN, torus / mesh / partly wrapped, dead chips, dead links in one or both directions, "
         "clustered faults, every third case dense faults (10-20 % of the directed links dead, 0-5 dead chips) plus a larger "
-        "dense-fault stream judged by the oracle only (8000 cases quick, 150000 thorough); 1-3 nets, "
+        "dense-fault stream judged by the oracle only (15000 cases quick, 150000 thorough); 1-3 nets, "
         "fan-out 0..2*chips, sinks on the source chip, duplicated sinks, core allocations / endpoint constraints / "
         "neither, radius in {0,1,2,3,20}, scripted random stream (random / all-zero / all-max / few values / edge "
         "values); every 25th case has a sink on a dead chip (not judged). ner_net alone on fault-free meshes and tori "
